@@ -232,6 +232,7 @@ def bounded_histories(seed, n_obj, n_hist):
         for o in K.flat_objects(kind, rng, n_obj):
             R, t, k = K.random_pose(rng)
             objs.append(K.transform(o, R, t, k))
+            objs.append(o)  # the same object in its integer lattice position: the library then stores ints, and the moves below add halves to them
     objs += list(K.polygons(rng, n_obj)) + list(K.polyhedra(rng, n_obj))
     vecs = [(0, 0, 0), (1, 0, 0), (0, -2, 0), (0, 0, 3)]
     for ex in objs:
